@@ -122,9 +122,9 @@ def valLine (v : Value) : String × String × String :=
 def errTable : List (String × String × String) := [
   ("paren", "syntax", "prepare"), ("token", "syntax", "prepare"), ("char", "syntax", "prepare"),
   ("unbound", "syntax", "prepare"), ("rebind", "syntax", "prepare"), ("aggwhere", "syntax", "prepare"),
-  ("afterreturn", "execution", "prepare"), ("unioncols", "syntax", "prepare"), ("nofunc", "syntax", "prepare"),
+  ("afterreturn", "syntax", "prepare"), ("unioncols", "syntax", "prepare"), ("nofunc", "syntax", "prepare"),
   ("noproc", "execution", "execute"), ("tobool", "execution", "execute"), ("parsedate", "none", "none"),
-  ("limitneg", "syntax", "prepare"), ("delconn", "execution", "execute"), ("empty", "execution", "prepare")]
+  ("limitneg", "syntax", "prepare"), ("delconn", "execution", "execute"), ("empty", "syntax", "prepare")]
 
 def step (_ : Unit) (ws : List String) : Unit × String × String × String :=
   match ws with
